@@ -38,7 +38,9 @@ def _case(draw, tier):
     d1 = bytes((b + 1) % 256 for b in d0)          # same length, different bytes
     docs = [{"hex": ""}, {"hex": d0.hex()}, {"hex": d1.hex()}, {"pat": d0[:4].hex(), "n": 3 * 8192 + 1}]
     # a per-case pool of 3 formats (always one spelling of the default) makes overwrites and collisions likely
-    fpool = [draw(st.sampled_from([None, NS])), draw(st.sampled_from(["c", "bc"])), draw(st.sampled_from(FORMATS[1:]))]
+    fpool = draw(st.sampled_from([
+        [None, "c", "bc"], [NS, "c", "bc"],     # ('ab','c') and ('a','bc') concatenate to the same string
+        [None, NS, "c"], [None, "bc", FORMATS[4]], [NS, FORMATS[4], FORMATS[5]]]))
     ppool = draw(st.sampled_from([PIDS, PIDS[:2], ["ab", "a", "abc"]]))
     op = ops.weighted(
         (9, ops.smeta_op(ppool, fpool, 4, kinds=("str", "path", "file", "bytesio"))),
